@@ -349,7 +349,9 @@ def _r4(ck: Checker, prog: Program, rule: str = "C04.R4"):
     # single-azimuth body uses its settings' azimuth
     g = prog.func("processing.traditional_single_azimuth_hvsr_processing")
     c = [x for x in calls_in(g.node, "single_azimuth") if isinstance(x.func, ast.Name)]
-    if len(c) == 1 and len(c[0].args) == 3 and unparse(c[0].args[2]) == "settings.azimuth_in_degrees":
+    sa = prog.func("processing.single_azimuth")
+    bnd = bind_call(c[0], sa.params) if len(c) == 1 else {}
+    if len(c) == 1 and len(sa.params) >= 3 and bnd.get(sa.params[2]) is not None and unparse(bnd[sa.params[2]]) == "settings.azimuth_in_degrees":
         ck.ok(rule, g.qualname, "projection azimuth = settings.azimuth_in_degrees")
     else:
         ck.violation(rule, g.qualname, "projection azimuth", "the projection does not use settings.azimuth_in_degrees", loc=g.loc())
